@@ -506,6 +506,7 @@ pub static C13: CliProp = CliProp {
     tape_len: 200,
     assumptions: &["'unreadable' is simulated by invalid UTF-8 (the sandbox runs as root, file modes are not enforced)", "arguments never spell the same file in two different ways (known finding KF-C16-path-spelling)"],
     extra: None,
+    exclude: None,
 };
 
 // ------------------------------------------------------------------------------------------
@@ -626,6 +627,7 @@ pub static C14: CliProp = CliProp {
     tape_len: 200,
     assumptions: &["formatter crash / verification failure / write error are injected with the verif-hooks fault points (STYLUA_VERIF_FAULT)", "'unreadable' is simulated by invalid UTF-8"],
     extra: None,
+    exclude: None,
 };
 
 
@@ -882,9 +884,50 @@ pub static C18: CliProp = CliProp {
     quick_cases: 16_000,
     thorough_cases: 300_000,
     tape_len: 500,
-    assumptions: &["JSON line numbers are 0-based and inclusive, as emitted by output_diff_json", "the standard (pretty) format is only checked for 'printed iff different'"],
+    assumptions: &["JSON line numbers are 0-based and inclusive, as emitted by output_diff_json", "the standard (pretty) format is only checked for 'printed iff different'", "pairs on which the `similar` crate itself reports inconsistent grouped operations are excluded (known finding KF-C18-similar-inconsistent-ops)"],
     extra: None,
+    exclude: Some(c18_known_finding),
 };
+
+/// Known finding KF-C18-similar-inconsistent-ops: for some pairs (a deletion next to an insertion around a repeated
+/// line such as `end`) `similar::TextDiff::grouped_ops(0)` yields operations whose indices do not describe the new
+/// text; the JSON mismatches copy them. Detected by replaying the library's own operations.
+fn c18_known_finding(case: &CliCase) -> Option<&'static str> {
+    let args = parse_args(&case.argv);
+    if args.output_format != "json" {
+        return None;
+    }
+    let config = args.opts.apply(sl::Config::default());
+    let original = std::str::from_utf8(case.files.get("f.lua")?).ok()?;
+    let formatted = lib_format(original, config)?;
+    let diff = similar::TextDiff::from_lines(original, &formatted);
+    let old: Vec<&str> = diff.old_slices().to_vec();
+    let new: Vec<&str> = diff.new_slices().to_vec();
+    let mut ops: Vec<similar::DiffOp> = diff.grouped_ops(0).into_iter().flatten().collect();
+    ops.sort_by_key(|op| op.old_range().start);
+    let mut out: Vec<&str> = Vec::new();
+    let mut cursor = 0usize;
+    for op in ops {
+        let (o, n) = (op.old_range(), op.new_range());
+        match op {
+            similar::DiffOp::Equal { .. } => {}
+            _ => {
+                if o.start < cursor || o.start > old.len() || n.end > new.len() {
+                    return Some("KF-C18-similar-inconsistent-ops");
+                }
+                out.extend_from_slice(&old[cursor..o.start]);
+                out.extend_from_slice(&new[n.start..n.end]);
+                cursor = o.end;
+            }
+        }
+    }
+    out.extend_from_slice(&old[cursor.min(old.len())..]);
+    if out.concat() != formatted {
+        Some("KF-C18-similar-inconsistent-ops")
+    } else {
+        None
+    }
+}
 
 
 // ------------------------------------------------------------------------------------------
@@ -1091,6 +1134,7 @@ pub static C17: CliProp = CliProp {
     tape_len: 400,
     assumptions: &["configuration files are absent (C15 covers the configuration search for stdin)", "--stdin-filepath values are relative paths"],
     extra: None,
+    exclude: None,
 };
 
 
@@ -1429,6 +1473,7 @@ pub static C16: CliProp = CliProp {
         "explicit files are not combined with custom globs plus --respect-ignores (the README does not define that case)",
     ],
     extra: None,
+    exclude: None,
 };
 
 
@@ -1895,6 +1940,7 @@ pub static C15: CliProp = CliProp {
     tape_len: 400,
     assumptions: &["targets lie in the working directory's subtree; paths contain no `..` (except the --config-path value); a directory holds at most one of stylua.toml / .stylua.toml", "EditorConfig sections use slash-free globs only"],
     extra: None,
+    exclude: None,
 };
 
 
@@ -2169,6 +2215,7 @@ pub static C20: CliProp = CliProp {
     tape_len: 8,
     assumptions: &["a malformed file is the only configuration in play"],
     extra: Some(c20_extra),
+    exclude: None,
 };
 
 
@@ -2364,6 +2411,7 @@ pub static C19: CliProp = CliProp {
     tape_len: 100,
     assumptions: &["interleavings of the exit-status accesses are enumerated; interleavings of file I/O between workers are only reached through the thread-count sweep", "the schedule hook wraps the EXIT_CODE atomic (verif-hooks), so a rewritten access sequence is still scheduled"],
     extra: None,
+    exclude: None,
 };
 
 pub fn cli_prop(id: &str) -> Option<&'static CliProp> {
